@@ -1,12 +1,14 @@
 --------------------------- MODULE VecSolveTrace ---------------------------
 (* code -> spec for C16.  Every call of the real solve_for_vector /          *)
 (* solve_for_scalar / apply made by the harness is recorded:                 *)
-(*   op      "solve" | "apply" | "scalar"                                    *)
+(*   op      "solve" | "apply" | "scalar" | "radical"                        *)
 (*   ts      the equation given to the library (term list of VecSolve, or    *)
 (*           <<k2, k1, k0>> coefficient programs for a scalar equation)      *)
 (*   nonvec  1 if the expression given was not a vector expression           *)
 (*   reduce  1 | 0,   fn  the function applied by `apply`                    *)
-(*   outcome "eq" (an equation was returned) | "raised"                      *)
+(*   outcome "eq" (an equation was returned; a returned `True` is recorded   *)
+(*           as the equation 0 = 0) | "false" (the unsatisfiable equation    *)
+(*           was returned) | "raised"                                        *)
 (*   lhs, rhs  the two sides of the returned equation as programs of VecVal  *)
 (* TLC evaluates the returned sides and decides every record with the        *)
 (* operators of the specification VecSolve (Expect, SolveVerdict,            *)
@@ -28,14 +30,16 @@ Verdict(A, rec) ==
          LET ex == IF rec.nonvec = 1 THEN "refuse" ELSE Expect(A, rec.ts) IN
          IF ex = "open" THEN "un"
          ELSE IF ex = "refuse" THEN (IF rec.outcome = "raised" THEN "ok" ELSE "bad")
-         ELSE IF rec.outcome = "raised" THEN "bad"
+         ELSE IF rec.outcome \in {"raised", "false"} THEN "bad"
          ELSE SolveVerdict(A, rec.ts, rec.reduce = 1, Eval(A, rec.lhs), Eval(A, rec.rhs))
     [] rec.op = "apply" ->
          IF rec.outcome = "raised" THEN "bad"
          ELSE ApplyVerdict(A, rec.ts, rec.fn, Eval(A, rec.lhs), Eval(A, rec.rhs))
-    [] rec.op = "scalar" ->
-         IF rec.outcome = "raised" \/ rec.lhs # << X >> THEN "un"
-         ELSE ScalarVerdict(A, rec.ts, Eval(A, rec.rhs))
+    [] rec.op \in {"scalar", "radical"} ->
+         IF rec.outcome = "false" THEN "bad"
+         ELSE IF rec.outcome = "raised" \/ rec.lhs # << X >> THEN "un"
+         ELSE IF rec.op = "scalar" THEN ScalarVerdict(A, rec.ts, Eval(A, rec.rhs))
+         ELSE RadicalVerdict(A, rec.ts, Eval(A, rec.rhs))
 
 Judge == PrintT(<<"V", Recs[t].id, [i \in 1..Len(TAssigns) |-> Verdict(TAssigns[i], Recs[t])]>>)
 =============================================================================
